@@ -132,6 +132,9 @@ extern int cs_measure(const cs_vna *v, int findex, const cs_c *S, cs_c *M);
 /* ---- presenting to libvna ------------------------------------------ */
 
 /* create vnacal parameters for the scenario (fills handle); 0 / -1 */
+/* amplitude of a point-by-point perturbation of tabulated (vector)
+   parameter values; 0 by default */
+extern double cs_vector_wiggle;
 extern int cs_make_params(vnacal_t *vcp, cs_scenario *sc);
 extern void cs_delete_params(vnacal_t *vcp, cs_scenario *sc);
 
